@@ -10,9 +10,9 @@
      UpdateStep(s) Client.Update(now)
      Tick          local time moves past the expiry of the early headers
 
-   The schedule s (a permutation of the witness names) is the order in which the
-   concurrent witness replies are consumed -- by detectDivergence, findNewPrimary and
-   compareFirstHeaderWithWitnesses.  `act` records what the step showed (requests and
+   The schedule s (a permutation of the witness names, used for every fan-out of the call)
+   is the order in which the concurrent witness replies are consumed -- by
+   detectDivergence, findNewPrimary and compareFirstHeaderWithWitnesses.  `act` records what the step showed (requests and
    answers, result class, evidence, ghost attackers); the properties are predicates on it
    and are the same predicates the trace specification evaluates on observed calls.   *)
 EXTENDS TMLight, TMLightWorld
@@ -65,7 +65,7 @@ Init ==
 
 Start(s) ==
   /\ ~started
-  /\ LET r == InitClient(SC, "p", WitNames, cnt, scen.root, RootName[scen.root], s) IN
+  /\ LET r == InitClient(SC, "p", WitNames, cnt, scen.root, RootName[scen.root], <<s>>) IN
      /\ started' = TRUE
      /\ cl' = r.x.cl
      /\ cnt' = r.x.cnt
@@ -75,7 +75,7 @@ Start(s) ==
 
 VerifyCall(h, s) ==
   /\ started /\ cl.store # {} /\ ncalls < MaxCalls
-  /\ LET r == VerifyAtHeight(SC, cl, cnt, h, now, s) IN
+  /\ LET r == VerifyAtHeight(SC, cl, cnt, h, now, <<s>>) IN
      /\ cl' = r.x.cl
      /\ cnt' = r.x.cnt
      /\ act' = [name |-> "Verify", h |-> h, now |-> now, sched |-> s, res |-> r.res, obs |-> r.x.reqs,
@@ -87,7 +87,7 @@ VerifyCall(h, s) ==
 \* Client.Update(now): verify the primary's latest block if it is above the latest trusted one
 UpdateStep(s) ==
   /\ started /\ cl.store # {} /\ ncalls < MaxCalls /\ WithUpdate
-  /\ LET r == UpdateCall(SC, cl, cnt, now, s) IN
+  /\ LET r == UpdateCall(SC, cl, cnt, now, <<s>>) IN
      /\ cl' = r.x.cl
      /\ cnt' = r.x.cnt
      /\ act' = [name |-> "Update", h |-> 0, now |-> now, sched |-> s, res |-> r.res, obs |-> r.x.reqs,
